@@ -122,7 +122,8 @@ ALL_ARGS = '{"i","ni","fl","st","bo","id","e","ne","cu","li","lni","nli","lli","
 def c05_stages(tier, seed):
     if tier == "quick":
         return [tlc_replay("MC_C05_d1", "MC_C05", "C05",
-                           dict(constants={"ArgNames": ALL_ARGS, "Depth": 1}, invariants=["Emit", "LitVarAgree"]))]
+                           dict(constants={"ArgNames": ALL_ARGS, "Depth": 1}, invariants=["Emit", "LitVarAgree"])),
+                c01_family("F5_c05q", replay="C05", fam="F5", leafs="F5_Leafs", maxsel=2, maxnodes=2, dirs="DirsNone")]
     return [tlc_replay("MC_C05_d2", "MC_C05", "C05",
                        dict(constants={"ArgNames": ALL_ARGS, "Depth": 2}, invariants=["Emit", "LitVarAgree"])),
             c01_family("F5_c05", replay="C05", fam="F5", leafs="F5_Leafs", maxsel=3, maxnodes=3, dirs="DirsNone")]
